@@ -44,13 +44,67 @@ def uninstall_weighted_choice_stub(sim):
     L = sim._ListDict_
     if getattr(L, '_verif_orig_choose', None) is not None:
         L.choose_random = L._verif_orig_choose
+    if getattr(L, '_verif_orig_update', None) is not None:
+        L.update = L._verif_orig_update
+        L.remove = L._verif_orig_remove
 
 
-def _sig(draws):
+def install_abstract_weighted_set(sim):
+    """For the law checks the weighted candidate set is used through its abstraction
+    (items, weights, total = sum of weights, selection proportional to weight): update/remove of
+    WEIGHTED sets are replaced by versions without the max_weight bookkeeping, whose weight
+    comparisons only multiply paths.  That the real methods refine this abstraction after any
+    history is exactly C16's inductive claim.  Unweighted sets keep the real code."""
+    install_weighted_choice_stub(sim)
+    L = sim._ListDict_
+    if getattr(L, '_verif_orig_update', None) is None:
+        L._verif_orig_update = L.update
+        L._verif_orig_remove = L.remove
+
+    def update(self, item, weight_increment=None):
+        if not self.weighted:
+            return L._verif_orig_update(self, item, weight_increment)
+        if weight_increment is None:
+            raise Exception('if weighted, must assign weight_increment')
+        self.weight[item] = self.weight[item] + weight_increment
+        self._total_weight += weight_increment
+        if item in self:
+            return
+        self.items.append(item)
+        self.item_to_position[item] = len(self.items) - 1
+
+    def remove(self, choice):
+        if not self.weighted:
+            return L._verif_orig_remove(self, choice)
+        position = self.item_to_position.pop(choice)
+        last_item = self.items.pop()
+        if position != len(self.items):
+            self.items[position] = last_item
+            self.item_to_position[last_item] = position
+        weight = self.weight.pop(choice)
+        self._total_weight -= weight
+    L.update = update
+    L.remove = remove
+
+
+def _is_draw_cmp(d, uvars):
+    return any(laws._mentions(d[1], u) for u in uvars)
+
+
+def _cond_of(d):
+    """z3 condition asserted by a logged comparison (diff (op) 0, direction taken)"""
+    _, diff, op, taken = d
+    zero = z3.RealVal(0)
+    c = {'lt': diff < zero, 'le': diff <= zero, 'gt': diff > zero, 'ge': diff >= zero, 'eq': diff == zero, 'ne': diff != zero}[op]
+    return c if taken else z3.Not(c)
+
+
+def _sig(draws, uvars):
     out = []
     for d in draws:
         if d[0] == 'cmp':
-            out.append(('c', d[3]))
+            if _is_draw_cmp(d, uvars):
+                out.append(('c', d[3]))
         elif d[0] == 'choice':
             out.append(('k', d[2], len(d[1])))
         elif d[0] == 'wchoice':
@@ -60,12 +114,22 @@ def _sig(draws):
     return tuple(out)
 
 
-def analyse(records, base, chain, status0, event_of_step, values_of=None, max_report=3):
-    """records: list of (log, complete_flag).  Returns the `post` dict for harness.finish"""
+def analyse(records, base, chain, status0, event_of_step, values_of=None, max_report=3, ties=False):
+    """records: list of (log, complete_flag).  Returns the `post` dict for harness.finish.
+
+    A step's branch is identified by the outcomes of ITS draws (signature).  Comparisons that do not
+    involve the step's uniform draws (weight orderings inside the candidate sets, horizon tests on
+    earlier times) split the parameter space into regions; the mass of a branch is recorded per
+    region and the law identity is proved with the regions as guards."""
     prover = Prover(base)
+    domain = {}
+
+    def _dom(c):
+        if c.get_id() not in domain:
+            domain[c.get_id()] = c
+            prover.s.add(c)
     tree = OrderedDict()      # prefix(tuple of events) -> node
     finals = []               # (prefix, status) of normally finished paths
-    problems = []
     counts = {'clock-rate': 0, 'event-law': 0, 'event-enabled': 0, 'no-missing-event': 0, 'absorbing-iff-zero-rate': 0,
               'wchoice-total=sum': 0}
     failures = []
@@ -86,23 +150,38 @@ def analyse(records, base, chain, status0, event_of_step, values_of=None, max_re
         status = dict(status0)
         prefix = ()
         nsteps = len(steps)
+        region = [d for d in prelude if d[0] == 'cmp']     # comparisons not tied to a step's uniform draws, so far
+        # supports of the draws: global hypotheses of every obligation (the stubs constrain their symbols this way)
+        for ent in log:
+            if ent[0] == 'expo':
+                _dom(lift(ent[2]) > 0 if not ties else lift(ent[2]) >= 0)
+            elif ent[0] == 'random':
+                _dom(z3.And(lift(ent[1]) >= 0, lift(ent[1]) < 1))
         for si, st in enumerate(steps):
             has_event = any(d[0] in ('choice', 'wchoice') for d in st['draws'])
             step_complete = (si < nsteps - 1) or complete
             node = tree.setdefault(prefix, {'status': dict(status), 'rates': [], 'branches': OrderedDict()})
-            node['rates'].append(st['rate'])
+            node['rates'].append((st['rate'], list(region)))
             if not has_event or not step_complete:
                 break
-            sig = _sig(st['draws'])
-            if sig not in node['branches']:
+            uvars = [lift(d[1]) for d in st['draws'] if d[0] == 'random']
+            other = [d for d in st['draws'] if d[0] == 'cmp' and not _is_draw_cmp(d, uvars)]
+            region = region + other
+            rkey = tuple((d[1].get_id(), d[2], d[3]) for d in region)
+            sig = _sig(st['draws'], uvars)
+            br = node['branches'].setdefault(sig, {'ev': None, 'variants': OrderedDict(), 'draws': st['draws']})
+            if rkey not in br['variants']:
+                phi = [_cond_of(d) for d in region]
                 try:
-                    mass, chosen = step_mass(st['draws'], prover)
+                    dd = [d for d in st['draws'] if d[0] != 'cmp' or _is_draw_cmp(d, uvars)]
+                    mass, chosen = step_mass(dd, prover, tuple(phi))
                 except LawError as e:
                     inconc.append('step mass: %s' % e)
                     break
-                ev = event_of_step(chosen, status, st['draws'])
-                node['branches'][sig] = (mass, ev, st['draws'])
-            ev = node['branches'][sig][1]
+                br['variants'][rkey] = (phi, mass, st['draws'])
+                if br['ev'] is None:
+                    br['ev'] = event_of_step(chosen, status, st['draws'])
+            ev = br['ev']
             if ev is None:
                 break
             status = chain.apply(status, ev)
@@ -110,35 +189,57 @@ def analyse(records, base, chain, status0, event_of_step, values_of=None, max_re
         else:
             if complete:
                 finals.append((prefix, status))
+
+    def guarded_sum(variants):
+        """sum over regions of If(region, mass, 0); identical masses share one guard, dropped when it is valid"""
+        by_mass = OrderedDict()
+        for rkey, (phi, mass, draws) in variants.items():
+            by_mass.setdefault(mass.get_id(), [mass, []])[1].append(z3.And(*phi) if phi else z3.BoolVal(True))
+        tot = z3.RealVal(0)
+        for mid, (mass, guards) in by_mass.items():
+            g = z3.simplify(z3.Or(*guards)) if len(guards) > 1 else z3.simplify(guards[0])
+            if z3.is_true(g):
+                tot = tot + mass
+                continue
+            ok, _ = prover.valid(g)
+            tot = tot + (mass if ok else z3.If(g, mass, 0))
+        return tot
+
     # ---- obligations per state
     for prefix, node in tree.items():
         ref = chain.events(node['status'])
         tot = lift(_total(ref))
-        for rate in node['rates'][:1] + [r for r in node['rates'][1:] if not _same(r, node['rates'][0])]:
+        seen = set()
+        for rate, region in node['rates']:
+            k = lift(rate).get_id()
+            if k in seen:
+                continue
+            seen.add(k)
             counts['clock-rate'] += 1
-            ok, m = prover.valid(lift(rate) == tot)
+            ok, m = prover.valid(lift(rate) == tot, tuple(_cond_of(d) for d in region))
             if not ok:
                 fail('clock-rate', {'state': _st(node['status']), 'after': _p(prefix), 'rate_used': str(z3.simplify(lift(rate))), 'reference_total': str(z3.simplify(tot))}, m)
         masses = OrderedDict()
-        for sig, (mass, ev, draws) in node['branches'].items():
+        for sig, br in node['branches'].items():
+            ev = br['ev']
             if ev is None:
                 continue
-            masses[ev] = masses.get(ev, z3.RealVal(0)) + mass
-            for d in draws:
-                if d[0] == 'wchoice':
-                    counts['wchoice-total=sum'] += 1
-                    s = z3.RealVal(0)
-                    for w in d[2]:
-                        s = s + lift(w)
-                    ok, m = prover.valid(lift(d[4]) == s)
-                    if not ok:
-                        fail('wchoice-total=sum', {'state': _st(node['status']), 'total': str(lift(d[4])), 'sum': str(z3.simplify(s))}, m)
+            masses[ev] = masses.get(ev, z3.RealVal(0)) + guarded_sum(br['variants'])
+            for rkey, (phi, mass, draws) in br['variants'].items():
+                for d in draws:
+                    if d[0] == 'wchoice':
+                        counts['wchoice-total=sum'] += 1
+                        ssum = z3.RealVal(0)
+                        for w in d[2]:
+                            ssum = ssum + lift(w)
+                        ok, m = prover.valid(lift(d[4]) == ssum, tuple(phi))
+                        if not ok:
+                            fail('wchoice-total=sum', {'state': _st(node['status']), 'total': str(lift(d[4])), 'sum': str(z3.simplify(ssum))}, m)
         if not node['branches']:
             continue
         for ev, mass in masses.items():
             counts['event-enabled'] += 1
             if ev not in ref:
-                # a feasible branch produced an event that is not enabled in the reference chain
                 ok, m = prover.valid(mass == 0)
                 if not ok:
                     fail('event-enabled', {'state': _st(node['status']), 'after': _p(prefix), 'event': str(ev)}, m)
@@ -147,7 +248,7 @@ def analyse(records, base, chain, status0, event_of_step, values_of=None, max_re
             ok, m = prover.valid(mass * tot == lift(ref[ev]))
             if not ok:
                 fail('event-law', {'state': _st(node['status']), 'after': _p(prefix), 'event': str(ev), 'mass': str(z3.simplify(mass))[:300],
-                                   'reference': '%s / %s' % (z3.simplify(lift(ref[ev])), z3.simplify(tot))}, m)
+                                   'reference': '(%s) / (%s)' % (z3.simplify(lift(ref[ev])), z3.simplify(tot))}, m)
         for ev, r in ref.items():
             counts['no-missing-event'] += 1
             if ev not in masses:
